@@ -290,8 +290,16 @@ func genInput(kind string, n int) string {
 	return b.String()
 }
 
+var sweepPrevSQL string
+var sweepDisturbers = []string{"\t\t'abc", "SELECT a,\n  b\nFROM t\nWHERE x = 'y'\n\n\n", "SELECT 1;\n\n\t\tSELECT \"q", "/* c */ SELECT\n\n\n\n\n\n\n\n'x"}
+
 func errSweepOne(id, sql, class string, big bool, reps int) sweepOut {
 	t0 := time.Now()
+	defer func() {
+		if !big && len(sql) < 4096 {
+			sweepPrevSQL = sql
+		}
+	}()
 	out := sweepOut{ID: id, Class: class, Bytes: len(sql)}
 	lines := strings.Split(sql, "\n")
 	out.NLines = len(lines)
@@ -323,6 +331,16 @@ func errSweepOne(id, sql, class string, big bool, reps int) sweepOut {
 		var pan string
 		for r := 0; r < reps; r++ {
 			var es []error
+			if r > 0 {
+				// between the repeated calls the same entry point runs on other inputs: pooled tokenizers and
+				// parsers then carry another input's history into the repeat ("the same input always produces the
+				// same code, message and location" must hold on warm pools too)
+				d := sweepDisturbers[(r-1)%len(sweepDisturbers)]
+				if r == 1 && sweepPrevSQL != "" {
+					d = sweepPrevSQL
+				}
+				guarded(func() { ep.run(d) })
+			}
 			p := guarded(func() { es = ep.run(sql) })
 			if p != "" {
 				pan = p
